@@ -55,11 +55,12 @@ def rand_cmd(r):
 	if verb == "SETFH":
 		argc = r.choice((4, 4, 6, 8, 5, 7, 3, 2, 0, 20, 40, 130))
 	elif verb.startswith("FAKE_"):
-		argc = r.choice((1, 2, 1, 2, 0, 3))
+		argc = r.choice((1, 2, 1, 2, 0, 3, 5, 8))
 	elif natural is not None and r.random() < 0.75:
 		argc = natural
 	else:
-		argc = r.randrange(5)
+		# also more arguments than any fixed-arity verb takes (only SETFH is variadic)
+		argc = r.choice((0, 1, 2, 3, 4, 5, 6, 8, 9))
 	args = [str(rand_int(r, verb, i)) for i in range(argc)]
 	if r.random() < 0.03 and args:
 		args[r.randrange(len(args))] = "+" + args[0].lstrip("-")
@@ -423,7 +424,7 @@ def trxcon_matrix(ctx, binary, r, rounds):
 
 
 def run(ctx):
-	ctx.rule = ("(A) random command sequences (every verb incl. unknown ones, argument counts 0..4 and long SETFH lists up to 130 "
+	ctx.rule = ("(A) random command sequences (every verb incl. unknown ones, argument counts 0..9 and long SETFH lists up to 130 "
 		"arguments, integers at range bounds, 2^31, 2^63) against 2-3 real FakeTRX in random prior states, sent from the configured "
 		"remote and from another port, with non-CMD datagrams interleaved and behavioural probe bursts; (B) the full PHYIF command "
 		"matrix of the real trx_if.c answered by a real FakeTRX, replies fed to the real trx_ctrl_read_cb; distinct = distinct "
@@ -432,10 +433,11 @@ def run(ctx):
 		"FAKE_TOA/FAKE_CI thresholds >= 0 (hostile forms belong to C14)")
 	r = ctx.rng("c05")
 	for i in range(ctx.scale(1500, 100000)):
-		sequence(ctx, r, i)
+		sequence(ctx, ctx.case_rng("sequence", i), i)
 		ctx.count("sequences")
 		if ctx.too_many() or ctx.time_left() < 0:
 			break
+	ctx.current_case = None
 	bd = cbuild.BuildDir("c05")
 	try:
 		binary = cbuild.build_trxif(bd)
@@ -452,6 +454,8 @@ def run(ctx):
 
 
 def replay(ctx, data):
-	ctx.rule = "replay: sequences are regenerated from the seed; rerunning the check with the recorded seed"
+	if common.replay_case(ctx, data, {"sequence": sequence}):
+		return
+	ctx.rule = "replay: no case coordinates in the witness; rerunning the check with the recorded seed"
 	ctx.seed = data.get("seed", 0)
 	run(ctx)
